@@ -10,15 +10,15 @@ CLAIMED = {
          "Structural necessary conditions of replica determinism, decided over every consensus-reachable module function (all handlers, block hooks, staking hooks, genesis, migrations): no wall clock/entropy/host state influences state, every map iteration body is order-insensitive, no process-resident state is written, no concurrency, no fusable float expression. Absence is a proof over an over-approximate call graph; it does not prove equality of app hashes.",
          "Trusts dependencies (SDK, tendermint, sao-did) and generated protobuf code; uniform gas per key inside order-insensitive map bodies; cross-architecture math.* results not decided.",
          "DESIGN.md §3 C01"),
- "C03": ("E5-D3: SSA scan for stores/map updates/in-place mutators rooted at package-level variables or long-lived receivers; mem/transient store use",
+ "C03": ("E5-D3: SSA scan for stores/map updates/in-place mutators rooted at package-level variables or long-lived receivers; mem/transient store use by field name and by the static type of the key bound at the keeper constructor call",
          "Structural necessary condition of crash-restart equivalence: module code never writes process-resident state (package variables, keeper/server/hook fields, memory stores), so it is a function of (committed stores, message). Decided for every consensus-reachable function; SDK/IAVL restart behaviour is not decided.",
          "Trusts dependencies and generated code; aliasing through nested heap pointers is not tracked.",
          "DESIGN.md §3 C03"),
- "C02": ("E4: natural-loop classification with termination variants (induction variable + bounding test, iterator Valid/Next, range Next, shrinking slice), call-cycle detection, guard dominance for divisions and coin subtractions in block-hook-reachable code, validated-parameter bound derivation",
+ "C02": ("E4: natural-loop classification with termination variants (induction variable + bounding test, iterator Valid/Next, range Next, shrinking slice), call-cycle detection, guard dominance for divisions and coin subtractions in block-hook-reachable code, validated-parameter bound derivation, coupled-delta agreement for the end-block subtrahend Shard.Pledge",
          "Structural necessary conditions of liveness over every consensus-reachable hand-written function: each loop has a recognised termination variant, no recursion; in code that runs without panic recovery (Begin/EndBlock, staking hooks fired by the staking end-blocker) every division has a provably non-zero divisor and every Coin subtraction is dominated by a comparison of its operands. A pass is a proof of those clauses for all paths; index/nil/bank panics and time bounds are not decided.",
          "Trusts dependencies and generated code; stored bech32 addresses valid (A-addr); record fields non-negative for arithmetic form AF1 (A-nonneg); guard and use of a memory-held operand not separated by a write (A-flow).",
          "DESIGN.md §3 C02"),
- "C18": ("E6: writer/reader table agreement between the store prefixes written by consensus code (effect summaries over the call graph) and those read by ExportGenesis / written by InitGenesis; GenesisState field and parameter-key symmetry",
+ "C18": ("E6: writer/reader table agreement between the store prefixes written by consensus code (effect summaries over the call graph) and those read by ExportGenesis / written by InitGenesis; GenesisState field and parameter-key symmetry; export getters return every record (iterator loop or Iterate+callback idiom) decoded into a per-iteration variable",
          "Structural necessary condition of the genesis round trip: every constant store prefix that consensus code writes is exported and re-imported by its module, every GenesisState field is assigned on export and consumed on import, every registered parameter key is exported. A missing table entry is state silently dropped by export/import. Validate(), JSON fidelity and continuation equivalence are not decided.",
          "Trusts dependencies; store keys are opened only through prefix.NewStore(ctx.KVStore(k.<key>), KeyPrefix(const)) (an unresolved prefix on a consensus path makes the check undecided, not passing).",
          "DESIGN.md §3 C18"),
@@ -34,7 +34,7 @@ CLAIMED = {
          "Structural necessary conditions for fault reports: the 'never changes balances, orders, shards or other pledges' clause is proved as absence of capability over the call graph; every write is dominated by the registered-node and fishman tests; a report is persisted only after provider/metadata/order/data-id/shard-listed/holder/unexpired tests; self-recovery only for faults recorded against the signer. Penalty <= holdings (numeric) is not decided.",
          "Trusts dependencies; over-approximate call graph (absence of capability is sound, presence may be spurious).",
          "DESIGN.md §3 C19"),
- "C17": ("E2/E1: path-sensitive guard dominance for Binding/Update/UpdatePaymentAddress incl. for-all loops and helper summaries; data dependence of the signed payload; capability matrix of the binding tables",
+ "C17": ("E2/E1: path-sensitive guard dominance for Binding/Update/UpdatePaymentAddress incl. for-all loops and helper summaries; data dependence of the signed payload; capability matrix of the binding tables; written record keys equal the keys the guards looked up",
          "Structural necessary conditions of DID registry integrity for all paths and inputs of the three handlers: no table write without the tests the statement names; for-all requirements (every account handled, payment account never unbound) recognised as loops whose every iteration passes the test; the payload whose signature is verified must depend on the claimed DID and timestamp; binding tables written only from the handlers, genesis and the v2 migration. Whole-table agreement is not decided.",
          "Trusts signature primitives and dependencies; CAIP-10 parsing is the repo's own helper (not re-verified).",
          "DESIGN.md §3 C17"),
@@ -46,15 +46,15 @@ CLAIMED = {
          "Structural necessary conditions of replica placement for all node populations, ignore lists and seeds: a node is produced for selection only after the capacity/status/reputation(/role, not-ignored) tests; RandomSP returns only nodes from those producers; an index equal to an earlier one is never appended; GetSps succeeds only with 0 < replica <= selected; every RandomSP call gets an ignore list that accumulates every existing holder (nil only for a new order). Uniformity and the count bound as arithmetic are not decided; termination of RandomIndex is C02.",
          "Trusts dependencies; cyclic φ terms are compared by SSA identity where term text would be unstable.",
          "DESIGN.md §3 C15"),
- "C16": ("E1/E2/E3: writer table of the counter keys, term identities in Append*, guard dominance for in-flight exclusion and base-version comparison strength",
+ "C16": ("E1/E2/E3: writer table of the counter keys, term identities in Append*, guard dominance for in-flight exclusion and base-version comparison (strict equality and tested-against-latest clauses)",
          "Structural necessary conditions of identifier uniqueness and version linearity: counters written only by Append*/genesis with read, store-under-read, read+1, return-read; an existing model is re-pointed only when Complete and only when its latest order is Completed; the base-version comparison must be an equality (today it is a substring test: known finding). History shape over interleavings is not decided.",
          "Trusts dependencies.",
          "DESIGN.md §3 C16"),
- "C08": ("E1/E2/E3: capability matrix for MintCoins/BurnCoins, guard dominance of mint and counter update, same-value identity of minted and counted coin, ordering (settle / change / re-base / persist) around capacity changes, claim remainder",
+ "C08": ("E1/E2/E3: capability matrix for MintCoins/BurnCoins, guard dominance of mint and counter update, same-value identity of minted and counted coin, ordering (settle / change / re-base / persist) around capacity changes, claim remainder assigned and persisted on every success path",
          "Structural necessary conditions of block-reward accounting: coins are minted only from the node begin-blocker and never burnt (proof over the call graph); the counter grows only after a successful mint by exactly the minted coin; mint is dominated by the pledge/reward tests and the baseline replacement is a guarded minimum; every persisted capacity change is preceded by settlement at the old capacity and followed by re-basing; a claim persists exactly the fractional remainder. Halving numerics and the sum bound are not decided (the division by pool.TotalStorage is reported under C02).",
          "Trusts dependencies; value identity is term identity (same access path, no intervening write assumed within the handler).",
          "DESIGN.md §3 C08"),
- "C06": ("E1/E7/E3: module-account registration table vs bank call sites, bank error discipline, closed table of money flows",
+ "C06": ("E1/E7/E3/E2: module-account registration table vs bank call sites, bank error discipline, closed table of money flows, status classification of refund contributions in Withdraw",
          "Three necessary structural clauses of escrow solvency: every module account named in a bank call is registered with the permission the call needs (else the bank panics and the payout cannot happen); the error of every bank mutator call is consumed (else records are updated for a transfer that failed); every bank call site matches the closed table of flows (modules, counter-party term, amount form) — a new or altered outflow is reported. The inequality balance >= sum owed is not decided.",
          "Trusts bank keeper semantics (A-bank) and dependencies.",
          "DESIGN.md §3 C06"),
@@ -62,27 +62,27 @@ CLAIMED = {
          "Structural necessary conditions of collateral safety: collateral leaves the node escrow only through tabled flows to the signer or to the provider recorded in the released shard; the amount released is shard.Pledge net of debt repaid first; withdrawal is dominated by size <= total − used and use by the free-capacity test; the collateral stored in a shard equals coins taken plus debt recorded, and the provider's total moves by the same amount (violated at renewal: known finding). Numeric non-negativity and rounding are not decided.",
          "Trusts dependencies; value identity is term identity.",
          "DESIGN.md §3 C07"),
- "C14": ("E3: coupled-delta analysis (sibling agreement and same-function coupling of aggregate updates)",
+ "C14": ("E3: coupled-delta analysis (sibling agreement and same-function coupling of aggregate updates); book/un-book call pairing on every path",
          "Structural necessary condition of aggregate accounting: each aggregate is updated only together with, and by the same term as, the per-shard/per-provider quantity it sums (append vs release siblings agree; provider and pool totals move together; total shard collateral moves by what is stored in the shard — violated at renewal: known finding). The equalities themselves on reachable states are not decided.",
          "Trusts dependencies; parameters of sibling functions are matched by record type.",
          "DESIGN.md §3 C14"),
- "C04": ("E7/E3/E2: closed table of money flows; charge-once identities (single charge site on every success path, outside loops, amount = persisted Order.Amount, before persistence); deposit only on first completion",
+ "C04": ("E7/E3/E2: closed table of money flows; charge-once identities (single charge site on every success path, outside loops, amount = persisted Order.Amount, before persistence); deposit only on first completion; status classification of refund contributions in Withdraw",
          "Topology and identity clauses of payment conservation: order escrow pays only the market escrow, the payer's/owner's payment address or the DID ledger; market escrow pays only order escrow, the claiming provider or the owner's payment address; Store and RenewOrder charge exactly once, exactly the amount they persist. Price formula, income accrual, refund arithmetic and the sum identity income + refunds = charged are runtime quantities and are NOT decided.",
          "Trusts dependencies; value identity is term identity plus 'no write to the variable after the charge'.",
          "DESIGN.md §3 C04"),
- "C05": ("E3/E2/E1: must-pass chain in CancelOrder, call-site preconditions (for-all shard removal or pending), refund only before completion, capability absence for reservation, schedule pairing",
+ "C05": ("E3/E2/E1: must-pass chain in CancelOrder, call-site preconditions (for-all shard removal or pending), refund only before completion, capability absence for reservation, schedule pairing, restore-from-own-last-element identities in RollbackMeta",
          "Structural necessary conditions of full refund and clean rollback: every success path of CancelOrder refunds the recorded amount (flow table), rolls the model back and removes the order, in that order; every caller first removes all shards or is on the pending branch, and never cancels a completed order; Store/Ready/timeout cannot write pledge records nor take provider coins (proved as absence of capability); removing a model removes its schedule entry. Balance deltas and re-assignment histories are not decided.",
          "Trusts dependencies; over-approximate call graph.",
          "DESIGN.md §3 C05"),
- "C11": ("E3/E1: typestate (period started => release scheduled at own end height) with path-sensitive search, capability tables for release and model deletion, for-all consumption of schedule entries, lifetime coupling",
+ "C11": ("E3/E1: typestate (period started => release scheduled at own end height) with path-sensitive search, capability tables for release and model deletion, for-all consumption of schedule entries, lifetime coupling, take-over stores dominating the migration hand-over",
          "Structural necessary conditions of retention and expiry: wherever a shard's paid period starts or rotates, every success path schedules its release at that shard's CreatedAt+Duration; shards are removed/collateral released only from the tabled operations; models are deleted only by Terminate and the model end-blocker; the end-blockers handle every id listed for the current height and drop the entry; the model is extended to the scheduled end height. 'Exactly that many blocks later' and exactly-once as temporal facts are not decided.",
          "Trusts dependencies; Renew is tabled for CAP-release only because the call graph is path-insensitive in UpdateMeta's operation switch.",
          "DESIGN.md §3 C11"),
- "C12": ("E3/E2: typestate (hand-over => timeout scheduled) path-sensitive in the isProvider flag, exit classification of the timeout handler by dominating facts, effect scan of the nothing-waiting branch, for-all consumption",
+ "C12": ("E3/E2: typestate (hand-over => timeout scheduled) path-sensitive in the isProvider flag, exit classification of the timeout handler by dominating facts, effect scan of the nothing-waiting branch, for-all consumption, close-implies-replace pairing inside the re-assignment loop",
          "Structural necessary conditions of timeout progress: after providers are selected for waiting shards every success path schedules the order's next examination; every exit of the timeout handler is rescheduled or dominated by an allowed reason; the nothing-waiting branch moves no coins and removes only non-completed shards; the end-blocker hands every listed order to the handler. Eventual completion and the ten-interval bound as arithmetic are not decided.",
          "Trusts dependencies.",
          "DESIGN.md §3 C12"),
- "C13": ("E3: creation/alias/schedule pairings — new shard id listed and its order persisted (interprocedural through pointer-parameter helpers), model and alias created/removed together with the alias key from the same record, period start => release scheduled, model removal => schedule entry removed",
+ "C13": ("E3: creation/alias/schedule pairings — new shard id listed and its order persisted (interprocedural through pointer-parameter helpers), model and alias created/removed together with the alias key from the same record, period start => release scheduled, model removal => schedule entry removed; alias/metadata creation dominated by emptiness tests on the written keys",
          "Creation-, alias- and schedule-side necessary conditions of referential integrity. Deletion-side list maintenance across shared renew orders and whole-state agreement need collection reasoning and are not decided.",
          "Trusts dependencies.",
          "DESIGN.md §3 C13"),
